@@ -24,8 +24,11 @@ def load_concrete():
 
 def load_leafharness():
     import importlib.util
+    if "pyvc_leafharness" in sys.modules:
+        return sys.modules["pyvc_leafharness"]
     spec = importlib.util.spec_from_file_location("pyvc_leafharness", os.path.join(HERE, "leafharness.py"))
     m = importlib.util.module_from_spec(spec)
+    sys.modules["pyvc_leafharness"] = m      # utype looks a class's module up in sys.modules (globals for references)
     spec.loader.exec_module(m)
     return m
 
